@@ -40,6 +40,7 @@ static int nctx;
 static uint8_t *img_before[MAXCTX];
 static uint8_t *mgr_before;
 static uint64_t ud_val[MAXCTX];
+static int started[MAXCTX]; /* a submit on this context has been accepted at least once: its digest is API-defined */
 
 /* a 4 GiB + window of virtual memory that repeats one 1 MiB pattern file (C15) */
 static uint8_t *huge_base;
@@ -170,7 +171,7 @@ emit_state(int ret)
                 else
                         sprintf(buf, "[%llu,%llu]", (unsigned long long) (tl >> 20), (unsigned long long) (tl & 0xFFFFF));
                 ev_raw("rtl", buf);
-                if (CTXF(ret, A->o_status, uint32_t) == ISAL_HASH_CTX_STS_COMPLETE) {
+                if (CTXF(ret, A->o_status, uint32_t) == ISAL_HASH_CTX_STS_COMPLETE && started[ret]) {
                         char hx[160];
                         dig_hex(ret, hx);
                         ev_str("dig", hx);
@@ -245,6 +246,7 @@ do_mgr(const cmd *c)
                 CTXF(i, A->o_ud, uint64_t) = ud_val[i];
                 img_before[i] = malloc(A->ctx_size);
                 seg_live[i] = 0;
+                started[i] = 0;
         }
         obs o;
         uint64_t args[1] = { (uint64_t) mgr_g.p };
@@ -315,6 +317,8 @@ do_sub(const cmd *c)
         int was_proc = (int) (*(uint32_t *) (img_before[ci] + A->o_status) & ISAL_HASH_CTX_STS_PROCESSING);
         int err_now = CTXF(ci, A->o_error, int32_t);
         int rejected = (reti == ci && err_now != 0) || was_proc;
+        if (!o.fault && !rejected)
+                started[ci] = 1;
         ev_begin("HSubmit");
         ev_int("c", ci);
         ev_int("flags", flags);
